@@ -225,6 +225,8 @@ pub struct SinkLog {
     pub calls: usize,
     /// first calls, as (offered, accepted) with accepted = usize::MAX for Interrupted
     pub first_calls: Vec<(usize, usize)>,
+    /// sizes of the first accepted chunks, in order (the pipe's packetisation)
+    pub accepted_chunks: Vec<usize>,
     pub partial_accepts: usize,
     pub accept_one: usize,
     pub accept_all_but_one: usize,
@@ -346,6 +348,9 @@ impl Write for SimSink {
                 }
                 if s.log.first_calls.len() < 128 {
                     s.log.first_calls.push((buf.len(), n));
+                }
+                if s.log.accepted_chunks.len() < 2048 {
+                    s.log.accepted_chunks.push(n);
                 }
                 s.received.extend_from_slice(&buf[..n]);
                 Ok(n)
@@ -725,6 +730,16 @@ pub fn check(rec: &WRecord) -> WCheckOut {
         if let (Some(delivery), Some((ops, expect))) = (&rec.readback, roundtrip_script(&rec.script)) {
             rt = expect.len();
             violation = roundtrip(&out.received, &ops, &expect, delivery);
+            if violation.is_none() {
+                // pipe mode: the Reader gets the text in exactly the packets the sink accepted
+                // (the Writer's flush / partial-accept boundaries), as if both ends of a pipe ran
+                let pipe = Trace { events: out.log.accepted_chunks.iter().map(|k| rsim::Ev::Deliver { k: *k, scribble: None }).collect(), rest_one: false, eof_scribble: None };
+                violation = roundtrip(&out.received, &ops, &expect, &pipe).map(|mut v| {
+                    v.detail = format!("{} [reader fed with the sink's own packetisation]", v.detail);
+                    v
+                });
+                rt += expect.len();
+            }
         }
     }
     WCheckOut { violation, out, roundtrip_values: rt }
